@@ -60,3 +60,8 @@ package rcall
 //@ func escapeStr
 //@ pure
 //@ ensures result == Esc(name)
+
+// C07: generating a reverse call graph twice in one process yields the same graph
+//@ func RCallGraph.Analysis
+//@ modifies loopCount, lastChild
+//@ assert before BuildRCallChain#1 loopCount == 0 && lastChild == ""
